@@ -204,6 +204,11 @@ def branch(op, mres, tag):
 
 def predicate(op, il, mres, tag):
     """the property itself, evaluated on what the real handler did"""
+    if op.split()[1] == "healthbusy":
+        if il != "ok 200":
+            return ("Relic.Props.C14.isolation", "ok 200 (answered at once from the last known state)",
+                    "a health request that overlaps a hanging token ping: " + il)
+        return None
     if op.split()[1] == "cachecancel":
         if il.split()[1:2] != ["b=1"]:
             return ("Relic.Props.C14.isolation", "every other request is answered as in isolation (with the key)",
